@@ -19,6 +19,19 @@ try:
 except Exception as _ex:  # the generator itself broke: same fallback as an unparseable source
     EB_TABLE_STATUS = "unparsed generator-failed: %s" % str(_ex)[:200]
 
+# A run against a scratch checkout (VERIF_REPO, seeded-change experiments) must not leave the table of
+# that checkout in the tree for other builds: regenerate from /repo when the process ends.
+if os.path.realpath(core.REPO) != os.path.realpath("/repo"):
+    import atexit
+
+    def _restore_table():
+        try:
+            translate_c18.generate("/repo", os.path.join(core.COQ, "gen"))
+        except Exception:
+            pass
+
+    atexit.register(_restore_table)
+
 
 def extra_phase(tier, seed, exes, oracle):
     word = EB_TABLE_STATUS.split(" ", 1)[0]
@@ -47,19 +60,38 @@ LEVEL_TEXT = ("Machine-checked Coq theorems for all inputs: the Stern-Brocot rec
               "steps and its exit pair are the neighbours of x in F_limit; the models of next_up/next_down (1/(limit^2+1) nudge, "
               "split_at_point, IBig+RBig) return the successor/predecessor in F_limit, nearest returns Exact iff the denominator "
               "fits and otherwise a neighbour that no element of F_limit beats, with the sign of result-self; limit 0 is the "
-              "documented panic; is_simpler_than is the documented lexicographic strict total order. Float side: the selection "
-              "step (open-interval optimum, then the optional end points) returns THE simplest canonical fraction of the "
-              "interval; the code after error_bounds / inside impl_simplest_from_float! is exactly that step; and outside the "
-              "open finding classes the as-is model of simplest_from_float (normalisation, ErrorBounds of the six modes, f-+bound) "
-              "equals the specification for every base >= 2, mode, precision, significand and exponent, likewise the f32/f64 "
-              "macro for every format and every bit pattern with ulp <= 1 (at powers of two the code's interval is wider below f "
-              "but the optimum is proved to be the same). The open defects are modelled as-is and refuted by witnesses.")
+              "documented panic; is_simpler_than is the documented lexicographic strict total order. Float side: (1) the rounding "
+              "interval used by the SPECIFICATION is proved to be exactly the preimage of the float under its rounding rule: "
+              "C18_spec_round_preimage characterises, for the six modes, the integers N/d that the shared spec_round sends to r "
+              "(directed modes: half-open unit intervals; HalfAway/HalfEven: half-unit intervals, the tie rule deciding the closed "
+              "end); C18_float_interval_is_preimage: for every base >= 2, mode, precision p >= 1, non-zero significand of at most p "
+              "digits and exponent, a canonical fraction is a member of float_interval_spec iff rounding it to p significant digits "
+              "(digit position of its own binade, then spec_round) gives the float - including the B-times narrower part below a "
+              "power of the base and odd bases; C18_ieee_interval_is_preimage: the same for every binary format and every finite "
+              "non-zero bit pattern against round-to-nearest-even with the position clamped at emin (subnormals). (2) the selection "
+              "step (open-interval optimum, then the optional end points) returns THE simplest canonical fraction of the interval, "
+              "and the code after error_bounds / inside impl_simplest_from_float! is exactly that step. (3) the ErrorBounds table "
+              "of float/src/round.rs is regenerated from the source on every run and the hand-written as-is model of error_bounds "
+              "is proved equal to it for every base, mode, precision, exponent and non-zero significand "
+              "(C18_error_bounds_table). (4) outside the open finding classes F06 (odd base with a half mode) and F07 (power of "
+              "the base) the as-is model of simplest_from_float (normalisation, ErrorBounds of the six modes incl. the repaired "
+              "HalfEven parity test, f-+bound) equals the specification for every base >= 2, mode, precision, significand and "
+              "exponent; at unlimited precision for every mode without exception (F08 repaired); the as-is model of the repaired "
+              "impl_simplest_from_float! (f32/f64: end points from the decoded mantissa and exponent in units of ulp/4) equals "
+              "the specification for every format and EVERY bit pattern (F04 repaired, no class left; the pinned macro body is "
+              "proved right exactly for ulp <= 1). The open defects (F06, F07) are modelled as-is and refuted by witnesses; the "
+              "repaired ones (F01-F05, F08) stay refuted on the pinned bodies.")
 LEVEL_NOTE = ("Trusted: Coq kernel, extraction (FastZ.v), zarith, OCaml driver, Rust harness. Value level (not word level): IBig/UBig "
               "arithmetic, Repr::cmp, RBig add/reduce and the exact FBig add/sub that forms the bounds are taken as Z/Q mathematics "
-              "(C01/C02/C04/C03's business) and tied by the correspondence run. NOT proved in general, only re-checked on every case "
-              "by the oracle against the shared rounding specification spec_round: that the specified rounding interval "
-              "(float_interval_spec / ieee_interval_spec) is exactly the preimage of the float under its rounding rule (each end "
-              "point is included iff it rounds to the float, and the specified answer rounds to the float).")
+              "(C01/C02/C04/C03's business) and tied by the correspondence run. 'Rounds to the float' is stated declaratively "
+              "(rounds_to / ieee_rounds_to: a digit position k of the number's own binade and spec_round at that position); the "
+              "executable round_to_prec / ieee_round used by the oracle to re-check every case (end points included iff they round "
+              "to the float, the specified answer rounds to the float) are NOT proved equal to that relation - after this round the "
+              "per-case re-check is a consistency check between the proved interval and an independent executable rounding, no "
+              "longer the only tie. Only compared, not proved: that FBig::ulp/digits, with_precision and the FBig subtraction/"
+              "addition forming f-L and f+R compute the model's fractions; that f32/f64::decode yields (mantissa, exponent) as "
+              "modelled. If float/src/round.rs cannot be parsed by tools/translate_c18.py the table tie falls back to the "
+              "correspondence run (reported in the evidence, not an alarm).")
 TECHNIQUE = "Coq proof (Stern-Brocot minimality, Farey invariant) + as-is models + extracted-spec correspondence run"
 RULE = ("cases = API x input class. simplest_in: end points equal / swapped / both negative / sign-straddling / zero or integer "
         "end points / adjacent convergents of one continued fraction (deep two-sided descent, exact-division branch) / "
@@ -81,7 +113,9 @@ TRUSTED_BASE = [
     "OCaml 4.13.1 + zarith 1.12, oracle/common.ml, oracle/driver_c18.ml; Rust harness harness/src/bin/c18.rs",
     "value-level modelling of IBig/UBig/Repr::cmp/RBig::add/reduce and of the exact FBig add/sub forming the rounding bounds",
     "is_simpler_than is transcribed by hand (translate.py does not emit RatioSmall.v yet)",
-    "Float/RoundSpec.v spec_round as the meaning of 'rounds to' in the per-case self-check of the FBig and IEEE rounding intervals (round_to_prec, ieee_round)",
+    "Float/RoundSpec.v spec_round (shared with C03/C06/C08/C10, tied to the regenerated round_low_part tables by C03_T_round) as the meaning of rounding an exact quotient to an integer; Ratio/FloatPreimage.v rounds_to and Ratio/IeeePreimage.v ieee_rounds_to as the meaning of 'x rounds to the float'",
+    "tools/translate_c18.py (reuses the tokenizer/parser of tools/translate.py): reads the six ErrorBounds bodies of float/src/round.rs into coq/gen/ErrorBoundsTable.v at plug-in import; the reading of f.ulp()/half_ulp/f.repr.digits()/significand.bit(0) as EBUlp/EBHalfUlp/dg/Z.odd and eb_eval's 'ulp panics at precision 0' are hand-written semantics of those atoms",
+    "executable round_to_prec / ieee_round (oracle-side consistency re-check only)",
 ]
 ASSUMPTIONS = [
     "RBig::from_parts / numerator() / denominator() and FBig::from_repr transport values faithfully (raw words, no parser)",
